@@ -88,37 +88,58 @@ def unwrapGroup (op : BoolSym) (es : List Expr) : Expr :=
   | [e] => e
   | _ => .group op es
 
-/-- `shake_0`. Recursion on fuel (depth budget); `shake0Fuel` always suffices. -/
-def shake0 : Nat → Expr → Expr
-  | 0, e => e
+/-- The flattening arms of `shake_0`'s `BooleanExpression` case (optimiser.rs:520-600): the symbol
+    and members of the group that the (already shaken) operands are regrouped into, if any. -/
+def binRegroup (l : Expr) (op : BoolSym) (r : Expr) : Option (BoolSym × List Expr) :=
+  match l, op, r with
+  | .group .and ls, .and, .group .and rs => some (.and, ls ++ rs)
+  | .group .and ls, .and, r'' => some (.and, ls ++ [r''])
+  | l'', .and, .group .and rs => some (.and, l'' :: rs)
+  | .group .or ls, .or, .group .or rs => some (.or, ls ++ rs)
+  | .group .or ls, .or, r'' => some (.or, ls ++ [r''])
+  | l'', .or, .group .or rs => some (.or, l'' :: rs)
+  | .bin x .and y, .and, z => some (.and, [x, y, z])
+  | x, .and, .bin y .and z => some (.and, [x, y, z])
+  | .bin x .or y, .or, z => some (.or, [x, y, z])
+  | x, .or, .bin y .or z => some (.or, [x, y, z])
+  | _, _, _ => none
+
+/-- The operand of a negation, if the expression is one. -/
+def unNeg : Expr → Option Expr
+  | .negate inner => some inner
+  | _ => none
+
+/-- `shake_0` (optimiser.rs:495), returning besides the tree a flag: **a double negation was
+    eliminated** somewhere (the one step of this pass that is not exact: not(not(missing)) = true).
+    Recursion on fuel (depth budget). -/
+def shake0F : Nat → Expr → Expr × Bool
+  | 0, e => (e, false)
   | fuel + 1, e =>
     match e with
     | .group op es =>
       -- `_ => unreachable!()` for a symbol other than And/Or is never hit on loaded rules
-      unwrapGroup op (es.map (shake0 fuel))
+      let rs := es.map (shake0F fuel)
+      (unwrapGroup op (rs.map (·.1)), rs.any (·.2))
     | .bin l op r =>
-      let l' := shake0 fuel l
-      let r' := shake0 fuel r
-      let regroup (sym : BoolSym) (xs : List Expr) : Expr := shake0 fuel (.group sym xs)
-      match l', op, r' with
-      | .group .and ls, .and, .group .and rs => regroup .and (ls ++ rs)
-      | .group .and ls, .and, r'' => regroup .and (ls ++ [r''])
-      | l'', .and, .group .and rs => regroup .and (l'' :: rs)
-      | .group .or ls, .or, .group .or rs => regroup .or (ls ++ rs)
-      | .group .or ls, .or, r'' => regroup .or (ls ++ [r''])
-      | l'', .or, .group .or rs => regroup .or (l'' :: rs)
-      | .bin x .and y, .and, z => regroup .and [x, y, z]
-      | x, .and, .bin y .and z => regroup .and [x, y, z]
-      | .bin x .or y, .or, z => regroup .or [x, y, z]
-      | x, .or, .bin y .or z => regroup .or [x, y, z]
-      | l'', _, r'' => .bin l'' op r''
-    | .match k x => .match k (shake0 fuel x)
+      let lf := shake0F fuel l
+      let rf := shake0F fuel r
+      let fired := lf.2 || rf.2
+      match binRegroup lf.1 op rf.1 with
+      | some (sym, xs) =>
+        let g := shake0F fuel (.group sym xs)
+        (g.1, fired || g.2)
+      | none => (.bin lf.1 op rf.1, fired)
+    | .match k x => let xf := shake0F fuel x; (.match k xf.1, xf.2)
     | .negate x =>
-      match shake0 fuel x with
-      | .negate inner => shake0 fuel inner
-      | x' => .negate x'
-    | .nested f x => .nested f (shake0 fuel x)
-    | e => e
+      let xf := shake0F fuel x
+      match unNeg xf.1 with
+      | some inner => let i := shake0F fuel inner; (i.1, true)
+      | none => (.negate xf.1, xf.2)
+    | .nested f x => let xf := shake0F fuel x; (.nested f xf.1, xf.2)
+    | e => (e, false)
+
+/-- `shake_0`. -/
+def shake0 (fuel : Nat) (e : Expr) : Expr := (shake0F fuel e).1
 
 /-! ### Ordered grouping (BTreeMap) -/
 
